@@ -63,9 +63,24 @@ def gen(rng, tier):
     weights = None if rng.random() < 0.4 else [rng.choice([1.0, 2.0, 0.0, rng.random()]) + i * 1e-3 + 1e-9 * (i % 7)
                                                 for i in range(N)]
     return {'pos': pos, 'weights': weights, 'npartition': npart, 'box': box, 'coord': coord, 'dtype': dtype,
-            'sort': rng.random() < 0.4, 'nthread': rng.choice([1, 2, 3, 4, 5, 7, 8, 16, 16]),
+            'sort': rng.random() < 0.4, 'nthread': rng.choice([1, 2, 3, 4, 5, 7, 8, 16, 16, rng.randrange(1, 17)]),
             'sched': gen_sched(rng), 'compiled': rng.random() < 0.2,
             'wdtype': rng.choice([dtype, dtype, 'f4', 'f8'])}
+
+
+def sweep(tier):
+    """Complete over (N 0..NMAX, nthread 1..16): the per-thread block boundaries only misalign for
+    particular (size, thread count) pairs."""
+    import random
+    NMAX = 260 if tier == 'thorough' else 130
+    rng = random.Random(17)
+    for nthread in range(1, 17):
+        for N in range(0, NMAX + 1):
+            pos = [[((i * 37) % 101) / 101.0 * 8.0, ((i * 11) % 13) / 13.0 * 8.0, ((i * 7) % 5) / 5.0 * 8.0] for i in range(N)]
+            yield {'pos': pos, 'weights': [1.0 + i for i in range(N)] if (N + nthread) % 2 else None, 'npartition': 4,
+                   'box': 8.0, 'coord': 0, 'dtype': 'f4', 'sort': False, 'nthread': nthread,
+                   'sched': {'policy': 'static', 'strategy': 'serial', 'seed': N * 17 + nthread}, 'compiled': False,
+                   'wdtype': 'f4', 'sweep': True}
 
 
 def _oracle(out, site, case, pos, weights, res):
